@@ -142,9 +142,11 @@ theorem look_tab {α : Type} (n : Nat) (f : Nat → α) : look (tab n f) f = f :
 
 theorem fwdExec_eq (T : Tables S) : ∀ t, fwdExec add T t =
     (tab T.n (fwd add T t), (List.range t).reverse.map fun s => tab T.n (bp add T s))
-  | 0 => by simp [fwdExec, fwd]
+  | 0 => by simp [fwdExec, fwdCore, fwd]
   | t + 1 => by
-      simp only [fwdExec, fwdExec_eq T t, look_tab, List.range_succ, List.reverse_append,
+      have ih := fwdExec_eq T t
+      simp only [fwdExec] at ih ⊢
+      simp only [fwdCore, ih, look_tab, List.range_succ, List.reverse_append,
         List.reverse_cons, List.reverse_nil, List.nil_append, List.cons_append, List.map_cons]
       rfl
 
@@ -219,4 +221,646 @@ theorem optimum_le_of_map (hm : Mono add) (T T' : Tables S) (σ : Nat → Nat) (
     rw [hn']; exact hσ x (hst x hx)
 
 end Generic
+
+/-! ## the change-recording loop of the chord writer -/
+section Writers
+variable {α β : Type} [DecidableEq β] (name : α → β)
+
+theorem changesFrom_mem : ∀ (l : List α) (cur : Option β) (t : Nat) (f : Nat) (x : α),
+    (f, x) ∈ changesFrom name cur t l → t ≤ f ∧ f < t + l.length ∧ l[f - t]? = some x
+  | [], _, _, _, _, h => by simp [changesFrom] at h
+  | y :: rest, cur, t, f, x, h => by
+      simp only [changesFrom] at h
+      have hrec := fun c (h' : (f, x) ∈ changesFrom name c (t + 1) rest) => by
+        have := changesFrom_mem rest c (t + 1) f x h'
+        have e : f - t = (f - (t + 1)) + 1 := by omega
+        exact (⟨by omega, by simp only [List.length_cons]; omega, by rw [e]; simpa using this.2.2⟩ :
+          t ≤ f ∧ f < t + (y :: rest).length ∧ (y :: rest)[f - t]? = some x)
+      split at h
+      · rcases List.mem_cons.mp h with h | h
+        · cases h; simp
+        · exact hrec _ h
+      · exact hrec _ h
+
+theorem changesFrom_pairwise : ∀ (l : List α) (cur : Option β) (t : Nat),
+    (changesFrom name cur t l).Pairwise (fun a b => a.1 < b.1)
+  | [], _, _ => by simp [changesFrom]
+  | y :: rest, cur, t => by
+      simp only [changesFrom]
+      split
+      · refine List.pairwise_cons.mpr ⟨?_, changesFrom_pairwise rest _ _⟩
+        intro a ha
+        have := changesFrom_mem name rest _ (t + 1) a.1 a.2 ha
+        simp only; omega
+      · exact changesFrom_pairwise rest _ _
+
+/-- the first change recorded differs from the current name, and neighbours differ -/
+theorem changesFrom_adjacent : ∀ (l : List α) (cur : Option β) (t : Nat),
+    Adjacent (fun a b => name a.2 ≠ name b.2) (changesFrom name cur t l) ∧
+      ∀ a, (changesFrom name cur t l).head? = some a → some (name a.2) ≠ cur
+  | [], _, _ => by simp [changesFrom, Adjacent]
+  | y :: rest, cur, t => by
+      simp only [changesFrom]
+      split
+      · rename_i hne
+        obtain ⟨h1, h2⟩ := changesFrom_adjacent rest (some (name y)) (t + 1)
+        refine ⟨?_, by simpa using hne⟩
+        cases hc : changesFrom name (some (name y)) (t + 1) rest with
+        | nil => simp [Adjacent]
+        | cons b l' =>
+          rw [hc] at h1 h2
+          refine ⟨?_, h1⟩
+          have := h2 b (by simp)
+          simp only [ne_eq, Option.some.injEq] at this
+          exact fun e => this e.symm
+      · exact changesFrom_adjacent rest cur (t + 1)
+
+/-- every frame carries the name announced by the last change at or before it -/
+theorem changesFrom_reconstruct : ∀ (l : List α) (cur : Option β) (t i : Nat) (x : α), l[i]? = some x →
+    (cur = some (name x) ∧ ∀ a ∈ changesFrom name cur t l, t + i < a.1) ∨
+    ∃ a ∈ changesFrom name cur t l, a.1 ≤ t + i ∧ name a.2 = name x ∧
+      ∀ b ∈ changesFrom name cur t l, b.1 ≤ t + i → b.1 ≤ a.1
+  | [], _, _, _, _, h => by simp at h
+  | y :: rest, cur, t, 0, x, h => by
+      simp only [List.getElem?_cons_zero, Option.some.injEq] at h
+      subst h
+      simp only [changesFrom]
+      split
+      · right
+        refine ⟨(t, y), by simp, by simp, rfl, ?_⟩
+        intro b hb hle
+        rcases List.mem_cons.mp hb with h | h
+        · subst h; simp
+        · have := changesFrom_mem name rest _ (t + 1) b.1 b.2 h
+          omega
+      · rename_i hne
+        left
+        refine ⟨(Decidable.not_not.mp hne).symm, ?_⟩
+        · intro a ha
+          have := changesFrom_mem name rest _ (t + 1) a.1 a.2 ha
+          omega
+  | y :: rest, cur, t, i + 1, x, h => by
+      simp only [List.getElem?_cons_succ] at h
+      simp only [changesFrom]
+      have e : t + (i + 1) = t + 1 + i := by omega
+      split
+      · rcases changesFrom_reconstruct rest (some (name y)) (t + 1) i x h with ⟨h1, h2⟩ | ⟨a, ha, h1, h2, h3⟩
+        · right
+          refine ⟨(t, y), by simp, by simp, by simpa using h1, ?_⟩
+          intro b hb hle
+          rcases List.mem_cons.mp hb with h | h
+          · subst h; simp
+          · have := h2 b h; omega
+        · right
+          refine ⟨a, List.mem_cons_of_mem _ ha, by omega, h2, ?_⟩
+          intro b hb hle
+          rcases List.mem_cons.mp hb with h | h
+          · subst h
+            have := changesFrom_mem name rest _ (t + 1) a.1 a.2 ha
+            simp only; omega
+          · exact h3 b h (by omega)
+      · rcases changesFrom_reconstruct rest cur (t + 1) i x h with ⟨h1, h2⟩ | ⟨a, ha, h1, h2, h3⟩
+        · left; exact ⟨h1, fun a ha => by have := h2 a ha; omega⟩
+        · right; exact ⟨a, ha, by omega, h2, fun b hb hle => h3 b hb (by omega)⟩
+end Writers
+
+/-! ## the melody note writer -/
+section Mel
+variable {τ : Type} [LinearOrder τ]
+
+/-- what `melWriter` guarantees for each note -/
+def NoteOK (total lo : τ) (cur : Option (Nat × τ)) (evs : List (MelEvent × τ)) (n : MelNote τ) : Prop :=
+  lo ≤ n.start ∧ n.start < n.stop ∧ n.stop ≤ total ∧
+  (cur = some (n.pitch, n.start) ∨ (MelEvent.note n.pitch true, n.start) ∈ evs) ∧
+  (n.stop = total ∨ ∃ e ∈ evs, e.2 = n.stop ∧ (e.1 = .rest ∨ ∃ q, e.1 = .note q true))
+
+theorem NoteOK.weaken {total lo lo' : τ} {cur cur'} {evs} {e : MelEvent × τ} {n : MelNote τ}
+    (h : NoteOK total lo' cur' evs n) (hlo : lo ≤ lo')
+    (hc : cur' = some (n.pitch, n.start) → cur = some (n.pitch, n.start) ∨ (MelEvent.note n.pitch true, n.start) = e) :
+    NoteOK total lo cur (e :: evs) n := by
+  obtain ⟨h1, h2, h3, h4, h5⟩ := h
+  refine ⟨le_trans hlo h1, h2, h3, ?_, ?_⟩
+  · rcases h4 with h4 | h4
+    · rcases hc h4 with h | h
+      · exact Or.inl h
+      · exact Or.inr (by rw [h]; simp)
+    · exact Or.inr (List.mem_cons_of_mem _ h4)
+  · rcases h5 with h5 | ⟨e', he', h5⟩
+    · exact Or.inl h5
+    · exact Or.inr ⟨e', List.mem_cons_of_mem _ he', h5⟩
+
+theorem melWriter_wf (total : τ) : ∀ (evs : List (MelEvent × τ)) (cur : Option (Nat × τ)) (lo : τ)
+    (notes : List (MelNote τ)),
+    evs.Pairwise (fun a b => a.2 < b.2) → (∀ e ∈ evs, lo ≤ e.2 ∧ e.2 < total) →
+    (∀ p s, cur = some (p, s) → lo ≤ s ∧ s < total ∧ ∀ e ∈ evs, s < e.2) →
+    melWriter total cur evs = .ok notes →
+    (∀ n ∈ notes, NoteOK total lo cur evs n) ∧ notes.Pairwise (fun a b => a.stop ≤ b.start)
+  | [], none, lo, notes, _, _, _, h => by
+      simp only [melWriter, Except.ok.injEq] at h; subst h; simp
+  | [], some (p, s), lo, notes, _, _, hc, h => by
+      simp only [melWriter, Except.ok.injEq] at h; subst h
+      obtain ⟨h1, h2, _⟩ := hc p s rfl
+      simp [NoteOK, h1, h2]
+  | (ev, time) :: rest, cur, lo, notes, hpw, hb, hc, h => by
+      obtain ⟨hpw1, hpw2⟩ := List.pairwise_cons.mp hpw
+      have hb' : ∀ e ∈ rest, time ≤ e.2 ∧ e.2 < total := fun e he =>
+        ⟨le_of_lt (hpw1 e he), (hb e (List.mem_cons_of_mem _ he)).2⟩
+      have hbt := hb (ev, time) (by simp)
+      match ev, cur, h with
+      | .rest, none, h =>
+          simp only [melWriter] at h
+          obtain ⟨r1, r2⟩ := melWriter_wf total rest none time notes hpw2 hb' (by simp) h
+          exact ⟨fun n hn => (r1 n hn).weaken hbt.1 (by simp), r2⟩
+      | .rest, some (p, s), h =>
+          simp only [melWriter] at h
+          cases hr : melWriter total none rest with
+          | error e => simp [hr, consOk] at h
+          | ok ns =>
+            simp only [hr, consOk, Except.ok.injEq] at h
+            subst h
+            obtain ⟨r1, r2⟩ := melWriter_wf total rest none time ns hpw2 hb' (by simp) hr
+            obtain ⟨c1, c2, c3⟩ := hc p s rfl
+            refine ⟨?_, List.pairwise_cons.mpr ⟨fun n hn => (r1 n hn).1, r2⟩⟩
+            intro n hn
+            rcases List.mem_cons.mp hn with hn | hn
+            · subst hn
+              exact ⟨c1, c3 (.rest, time) (by simp), le_of_lt hbt.2, Or.inl rfl, Or.inr ⟨(.rest, time), by simp, rfl, Or.inl rfl⟩⟩
+            · exact (r1 n hn).weaken hbt.1 (by simp)
+      | .note q true, none, h =>
+          simp only [melWriter] at h
+          obtain ⟨r1, r2⟩ := melWriter_wf total rest (some (q, time)) time notes hpw2 hb'
+            (by intro p s e; cases e; exact ⟨le_refl _, hbt.2, hpw1⟩) h
+          refine ⟨fun n hn => (r1 n hn).weaken hbt.1 ?_, r2⟩
+          intro e; cases e; exact Or.inr rfl
+      | .note q true, some (p, s), h =>
+          simp only [melWriter] at h
+          cases hr : melWriter total (some (q, time)) rest with
+          | error e => simp [hr, consOk] at h
+          | ok ns =>
+            simp only [hr, consOk, Except.ok.injEq] at h
+            subst h
+            obtain ⟨r1, r2⟩ := melWriter_wf total rest (some (q, time)) time ns hpw2 hb'
+              (by intro p s e; cases e; exact ⟨le_refl _, hbt.2, hpw1⟩) hr
+            obtain ⟨c1, c2, c3⟩ := hc p s rfl
+            refine ⟨?_, List.pairwise_cons.mpr ⟨fun n hn => (r1 n hn).1, r2⟩⟩
+            intro n hn
+            rcases List.mem_cons.mp hn with hn | hn
+            · subst hn
+              exact ⟨c1, c3 (.note q true, time) (by simp), le_of_lt hbt.2, Or.inl rfl,
+                Or.inr ⟨(.note q true, time), by simp, rfl, Or.inr ⟨q, rfl⟩⟩⟩
+            · refine (r1 n hn).weaken hbt.1 ?_
+              intro e; cases e; exact Or.inr rfl
+      | .note q false, none, h => simp [melWriter] at h
+      | .note q false, some (p, s), h =>
+          simp only [melWriter] at h
+          split at h
+          · obtain ⟨c1, c2, c3⟩ := hc p s rfl
+            obtain ⟨r1, r2⟩ := melWriter_wf total rest (some (p, s)) lo notes hpw2
+              (fun e he => hb e (List.mem_cons_of_mem _ he))
+              (by intro p' s' e; cases e; exact ⟨c1, c2, fun e he => c3 e (List.mem_cons_of_mem _ he)⟩) h
+            exact ⟨fun n hn => (r1 n hn).weaken (le_refl _) (fun e => Or.inl e), r2⟩
+          · simp at h
+end Mel
+
+section MapOk
+variable {α β : Type} (f : α → Except String β)
+
+theorem mapOk_cons_ok {a : α} {l : List α} {r : List β} (h : mapOk f (a :: l) = .ok r) :
+    ∃ b r', f a = .ok b ∧ mapOk f l = .ok r' ∧ r = b :: r' := by
+  simp only [mapOk] at h
+  cases hf : f a with
+  | error e => simp [hf] at h
+  | ok b =>
+    simp only [hf] at h
+    cases hr : mapOk f l with
+    | error e => simp [hr, consOk] at h
+    | ok r' =>
+      simp only [hr, consOk, Except.ok.injEq] at h
+      exact ⟨b, r', rfl, rfl, h.symm⟩
+
+theorem mapOk_mem : ∀ (l : List α) (r : List β), mapOk f l = .ok r → ∀ b ∈ r, ∃ a ∈ l, f a = .ok b
+  | [], r, h, b, hb => by simp only [mapOk, Except.ok.injEq] at h; subst h; simp at hb
+  | a :: l, r, h, b, hb => by
+      obtain ⟨b', r', h1, h2, rfl⟩ := mapOk_cons_ok f h
+      rcases List.mem_cons.mp hb with hb | hb
+      · subst hb; exact ⟨a, by simp, h1⟩
+      · obtain ⟨a', ha', h3⟩ := mapOk_mem l r' h2 b hb
+        exact ⟨a', List.mem_cons_of_mem _ ha', h3⟩
+
+theorem mapOk_mem' : ∀ (l : List α) (r : List β), mapOk f l = .ok r → ∀ a ∈ l, ∃ b ∈ r, f a = .ok b
+  | [], r, h, a, ha => by simp at ha
+  | a' :: l, r, h, a, ha => by
+      obtain ⟨b', r', h1, h2, rfl⟩ := mapOk_cons_ok f h
+      rcases List.mem_cons.mp ha with ha | ha
+      · subst ha; exact ⟨b', by simp, h1⟩
+      · obtain ⟨b, hb, h3⟩ := mapOk_mem' l r' h2 a ha
+        exact ⟨b, List.mem_cons_of_mem _ hb, h3⟩
+
+theorem mapOk_pairwise {R : α → α → Prop} {R' : β → β → Prop}
+    (hR : ∀ a a' b b', f a = .ok b → f a' = .ok b' → R a a' → R' b b') :
+    ∀ (l : List α) (r : List β), mapOk f l = .ok r → l.Pairwise R → r.Pairwise R'
+  | [], r, h, _ => by simp only [mapOk, Except.ok.injEq] at h; subst h; simp
+  | a :: l, r, h, hp => by
+      obtain ⟨b, r', h1, h2, rfl⟩ := mapOk_cons_ok f h
+      obtain ⟨p1, p2⟩ := List.pairwise_cons.mp hp
+      refine List.pairwise_cons.mpr ⟨?_, mapOk_pairwise hR l r' h2 p2⟩
+      intro b' hb'
+      obtain ⟨a', ha', h3⟩ := mapOk_mem f l r' h2 b' hb'
+      exact hR a a' b b' h1 h3 (p1 a' ha')
+
+theorem mapOk_adjacent {R : α → α → Prop} {R' : β → β → Prop}
+    (hR : ∀ a a' b b', f a = .ok b → f a' = .ok b' → R a a' → R' b b') :
+    ∀ (l : List α) (r : List β), mapOk f l = .ok r → Adjacent R l → Adjacent R' r
+  | [], r, h, _ => by simp only [mapOk, Except.ok.injEq] at h; subst h; simp [Adjacent]
+  | [a], r, h, _ => by
+      obtain ⟨b, r', _, h2, rfl⟩ := mapOk_cons_ok f h
+      simp only [mapOk, Except.ok.injEq] at h2; subst h2; simp [Adjacent]
+  | a :: a' :: l, r, h, hp => by
+      obtain ⟨b, r', h1, h2, rfl⟩ := mapOk_cons_ok f h
+      obtain ⟨b', r'', h3, h4, rfl⟩ := mapOk_cons_ok f h2
+      exact ⟨hR a a' b b' h1 h3 hp.1, mapOk_adjacent hR (a' :: l) (b' :: r'') h2 hp.2⟩
+
+theorem mapOk_total (hf : ∀ a, ∃ b, f a = .ok b) : ∀ l : List α, ∃ r, mapOk f l = .ok r ∧ r.length = l.length
+  | [] => ⟨[], rfl, rfl⟩
+  | a :: l => by
+      obtain ⟨b, hb⟩ := hf a
+      obtain ⟨r, hr, hl⟩ := mapOk_total hf l
+      exact ⟨b :: r, by simp [mapOk, hb, hr, consOk], by simp [hl]⟩
+end MapOk
+
+/-! ## melody: a path of finite score is written without tripping the assertion -/
+section MelOk
+variable {τ : Type}
+
+theorem melWriter_ok (total : τ) : ∀ (evs : List (MelEvent × τ)) (cur : Option (Nat × τ)),
+    evLegal (cur.map (·.1)) (evs.map (·.1)) → ∃ notes, melWriter total cur evs = .ok notes
+  | [], none, _ => ⟨_, rfl⟩
+  | [], some (p, s), _ => ⟨_, rfl⟩
+  | (.rest, t) :: rest, none, h => by
+      simp only [List.map_cons, evLegal] at h
+      obtain ⟨n, hn⟩ := melWriter_ok total rest none h
+      exact ⟨n, by simp [melWriter, hn]⟩
+  | (.rest, t) :: rest, some (p, s), h => by
+      simp only [List.map_cons, evLegal] at h
+      obtain ⟨n, hn⟩ := melWriter_ok total rest none h
+      exact ⟨⟨s, t, p⟩ :: n, by simp [melWriter, hn, consOk]⟩
+  | (.note q true, t) :: rest, none, h => by
+      simp only [List.map_cons, evLegal] at h
+      obtain ⟨n, hn⟩ := melWriter_ok total rest (some (q, t)) h
+      exact ⟨n, by simp [melWriter, hn]⟩
+  | (.note q true, t) :: rest, some (p, s), h => by
+      simp only [List.map_cons, evLegal] at h
+      obtain ⟨n, hn⟩ := melWriter_ok total rest (some (q, t)) h
+      exact ⟨⟨s, t, p⟩ :: n, by simp [melWriter, hn, consOk]⟩
+  | (.note q false, t) :: rest, none, h => by
+      simp [evLegal] at h
+  | (.note q false, t) :: rest, some (p, s), h => by
+      simp only [List.map_cons, evLegal, Option.map_some, Option.some.injEq] at h
+      obtain ⟨n, hn⟩ := melWriter_ok total rest (some (p, s)) (by simpa using h.2)
+      exact ⟨n, by simp [melWriter, h.1.symm, hn]⟩
+
+/-- the pitch sounding after state `i` -/
+def curPitch (pitches : List Nat) (i : Nat) : Option Nat :=
+  if i = 0 then none else if i ≤ pitches.length then pitches[i - 1]? else pitches[i - pitches.length - 1]?
+
+def chainLegal (P : Nat) : Nat → List Nat → Prop
+  | _, [] => True
+  | i, j :: rest => melLegalStep P i j ∧ chainLegal P j rest
+
+theorem melDecode_ok (pitches : List Nat) (i : Nat) (h : i < 2 * pitches.length + 1) :
+    (i = 0 ∧ melDecode pitches i = .ok .rest) ∨
+    (∃ p, 0 < i ∧ i ≤ pitches.length ∧ curPitch pitches i = some p ∧ melDecode pitches i = .ok (.note p true)) ∨
+    (∃ p, pitches.length < i ∧ curPitch pitches i = some p ∧ melDecode pitches i = .ok (.note p false)) := by
+  unfold melDecode curPitch
+  by_cases h0 : i = 0
+  · left; simp [h0]
+  · right
+    by_cases h1 : i ≤ pitches.length
+    · left
+      have hlt : i - 1 < pitches.length := by omega
+      refine ⟨pitches[i - 1], by omega, h1, ?_⟩
+      simp [h0, h1, List.getElem?_eq_getElem hlt]
+    · right
+      have hlt : i - pitches.length - 1 < pitches.length := by omega
+      refine ⟨pitches[i - pitches.length - 1], by omega, ?_⟩
+      simp [h0, h1, List.getElem?_eq_getElem hlt]
+
+theorem chainLegal_evLegal (pitches : List Nat) : ∀ (path : List Nat) (i : Nat),
+    (∀ s ∈ path, s < 2 * pitches.length + 1) → chainLegal pitches.length i path →
+    ∃ evs, melEvents pitches path = .ok evs ∧ evs.length = path.length ∧ evLegal (curPitch pitches i) evs
+  | [], i, _, _ => ⟨[], rfl, rfl, trivial⟩
+  | j :: rest, i, hs, hc => by
+      obtain ⟨hstep, hc'⟩ := hc
+      obtain ⟨evs, he, hl, hev⟩ := chainLegal_evLegal pitches rest j
+        (fun s h => hs s (List.mem_cons_of_mem _ h)) hc'
+      unfold melEvents at he ⊢
+      rcases melDecode_ok pitches j (hs j (by simp)) with ⟨h0, hd⟩ | ⟨p, h0, h1, hp, hd⟩ | ⟨p, h1, hp, hd⟩
+      · refine ⟨.rest :: evs, by simp [mapOk, hd, he, consOk], by simp [hl], ?_⟩
+        simpa [evLegal, h0, curPitch] using hev
+      · refine ⟨.note p true :: evs, by simp [mapOk, hd, he, consOk], by simp [hl], ?_⟩
+        simpa [evLegal, hp] using hev
+      · refine ⟨.note p false :: evs, by simp [mapOk, hd, he, consOk], by simp [hl], ?_⟩
+        simp only [evLegal]
+        have hij : curPitch pitches i = curPitch pitches j := by
+          rcases hstep with h | h | h
+          · omega
+          · rw [h]
+          · unfold curPitch
+            have : i ≠ 0 := by omega
+            have e : j - pitches.length - 1 = i - 1 := by omega
+            by_cases hi : i ≤ pitches.length
+            · simp [this, hi, show j ≠ 0 by omega, show ¬ j ≤ pitches.length by omega, e]
+            · have := hs j (by simp); omega
+        rw [hij, hp]
+        exact ⟨rfl, by rw [← hp]; exact hev⟩
+end MelOk
+
+/-! ## melody: finite score ⇒ legal chain -/
+section MelFinite
+variable {S : Type} (add : S → S → S)
+
+theorem stepsFinite_chainLegal (P : Nat) (fl tr : Nat → Nat → S) (bot : S)
+    (hstruct : ∀ i j, P < j → i ≠ j → i + P ≠ j → tr i j = bot) :
+    ∀ (rest : List Nat) (prev t : Nat), stepsFinite (melTables add P fl tr) bot prev t rest →
+      chainLegal P prev rest
+  | [], _, _, _ => trivial
+  | j :: rest, prev, t, h => by
+      obtain ⟨h1, _, h3⟩ := h
+      refine ⟨?_, stepsFinite_chainLegal P fl tr bot hstruct rest j (t + 1) h3⟩
+      unfold melLegalStep
+      by_cases a : j ≤ P
+      · exact Or.inl a
+      · by_cases b : prev = j
+        · exact Or.inr (Or.inl b)
+        · by_cases c : prev + P = j
+          · exact Or.inr (Or.inr c)
+          · exact absurd (hstruct prev j (by omega) b c) h1
+
+theorem pathFinite_chainLegal (P : Nat) (fl tr : Nat → Nat → S) (bot : S) (hL : ∀ b, add bot b = bot)
+    (hstruct : ∀ i j, P < j → i ≠ j → i + P ≠ j → tr i j = bot) (path : List Nat)
+    (h : pathFinite (melTables add P fl tr) bot path) : chainLegal P 0 path := by
+  cases path with
+  | nil => trivial
+  | cons j rest =>
+    obtain ⟨h1, h2⟩ := h
+    refine ⟨?_, stepsFinite_chainLegal add P fl tr bot hstruct rest j 1 h2⟩
+    have ht : tr 0 j ≠ bot := fun e => h1 (by simp only [melTables]; rw [e, hL])
+    unfold melLegalStep
+    by_cases a : j ≤ P
+    · exact Or.inl a
+    · by_cases b : 0 = j
+      · exact Or.inr (Or.inl b)
+      · by_cases c : 0 + P = j
+        · exact Or.inr (Or.inr c)
+        · exact absurd (hstruct 0 j (by omega) b c) ht
+
+theorem stepsFinite_emit (T : Tables S) (bot : S) : ∀ (rest : List Nat) (prev t k j : Nat),
+    stepsFinite T bot prev t rest → rest[k]? = some j → T.emit (t + k) j ≠ bot
+  | [], _, _, _, _, _, h => by simp at h
+  | x :: rest, prev, t, 0, j, h, hk => by
+      simp only [List.getElem?_cons_zero, Option.some.injEq] at hk
+      subst hk; exact h.2.1
+  | x :: rest, prev, t, k + 1, j, h, hk => by
+      simp only [List.getElem?_cons_succ] at hk
+      have := stepsFinite_emit T bot rest x (t + 1) k j h.2.2 hk
+      have e : t + (k + 1) = t + 1 + k := by omega
+      rw [e]; exact this
+end MelFinite
+
+
+/-! ## relabelling key-chord states by a transposition -/
+
+theorem rotState_parts (C k : Nat) (rot : Nat → Nat) (hC : 0 < C) (i : Nat)
+    (hr : rot (i % C) < C) :
+    rotState C k rot i / C = (i / C + k) % 12 ∧ rotState C k rot i % C = rot (i % C) := by
+  unfold rotState
+  constructor
+  · rw [Nat.mul_comm, Nat.mul_add_div hC, Nat.div_eq_of_lt hr, Nat.add_zero]
+  · rw [Nat.mul_comm, Nat.mul_add_mod, Nat.mod_eq_of_lt hr]
+
+theorem rotState_lt (C k : Nat) (rot : Nat → Nat) (i : Nat) (hr : rot (i % C) < C) :
+    rotState C k rot i < 12 * C := by
+  unfold rotState
+  have h : (i / C + k) % 12 < 12 := Nat.mod_lt _ (by omega)
+  calc (i / C + k) % 12 * C + rot (i % C) < (i / C + k) % 12 * C + C := by omega
+    _ = ((i / C + k) % 12 + 1) * C := by rw [Nat.add_mul, Nat.one_mul]
+    _ ≤ 12 * C := Nat.mul_le_mul_right _ (by omega)
+
+theorem rotState_inv (C k k' : Nat) (rot rotInv : Nat → Nat) (hC : 0 < C) (hk : (k + k') % 12 = 0)
+    (hr : ∀ c, c < C → rot c < C) (hinv : ∀ c, c < C → rotInv (rot c) = c) (i : Nat) (hi : i < 12 * C) :
+    rotState C k' rotInv (rotState C k rot i) = i := by
+  have hc : i % C < C := Nat.mod_lt _ hC
+  obtain ⟨h1, h2⟩ := rotState_parts C k rot hC i (hr _ hc)
+  have ha : i / C < 12 := by
+    rw [Nat.div_lt_iff_lt_mul hC]; exact hi
+  have e : rotState C k' rotInv (rotState C k rot i) =
+      ((rotState C k rot i / C + k') % 12) * C + rotInv (rotState C k rot i % C) := rfl
+  rw [e, h1, h2, hinv _ hc]
+  have key : ∀ a, a < 12 → ((a + k) % 12 + k') % 12 = a := by
+    clear hr hinv hi hc h1 h2 ha e
+    intro a ha; omega
+  have := key _ ha
+  rw [this, Nat.mul_comm]
+  exact Nat.div_add_mod i C
+
+section KC
+variable {S : Type} [LinearOrder S] (add : S → S → S)
+
+theorem kc_optimum_le (hm : Mono add) (C k : Nat) (rot : Nat → Nat) (hC : 0 < C)
+    (hr : ∀ c, c < C → rot c < C) (nl : S) (kc fl tr kc' fl' tr' : Nat → Nat → S)
+    (hkc : ∀ a c, a < 12 → c < C → kc' ((a + k) % 12) (rot c) = kc a c)
+    (hfl : ∀ t c, c < C → fl' t (rot c) = fl t c)
+    (htr : ∀ i j, i < 12 * C → j < 12 * C → tr' (rotState C k rot i) (rotState C k rot j) = tr i j)
+    (frames : Nat) (hf : 0 < frames) :
+    optimum add (kcTables add C nl kc fl tr) frames ≤ optimum add (kcTables add C nl kc' fl' tr') frames := by
+  refine optimum_le_of_map add hm (kcTables add C nl kc fl tr) (kcTables add C nl kc' fl' tr')
+    (rotState C k rot) (show 0 < 12 * C by omega) rfl ?_ ?_ ?_ ?_ frames hf
+  · intro i _; exact rotState_lt C k rot i (hr _ (Nat.mod_lt _ hC))
+  · intro i hi
+    have hc : i % C < C := Nat.mod_lt _ hC
+    obtain ⟨h1, h2⟩ := rotState_parts C k rot hC i (hr _ hc)
+    have ha : i / C < 12 := by
+      rw [Nat.div_lt_iff_lt_mul hC]; exact hi
+    simp only [kcTables, h1, h2, hkc _ _ ha hc, hfl _ _ hc]
+  · intro i j hi hj; exact htr i j hi hj
+  · intro t j _
+    have hc : j % C < C := Nat.mod_lt _ hC
+    obtain ⟨_, h2⟩ := rotState_parts C k rot hC j (hr _ hc)
+    simp only [kcTables, h2, hfl _ _ hc]
+end KC
+
+
+/-! ## small facts used by `Props` -/
+deriving instance DecidableEq for Except
+
+theorem annOf_ok {R : Rat → Rat} {tm : Timing} {x : Nat × Nat × String × String} {b : ChordAnn}
+    (h : annOf R tm x = .ok b) :
+    frameTime R tm x.1 = .ok b.time ∧ frameStep tm x.1 = .ok b.step ∧ b.frame = x.1 ∧ b.text = x.2.2.2 := by
+  unfold annOf at h
+  split at h
+  · rename_i t q ht hq
+    simp only [Except.ok.injEq] at h; subst h; exact ⟨ht, hq, rfl, rfl⟩
+  · simp at h
+  · simp at h
+
+theorem keyOf_ok {R : Rat → Rat} {tm : Timing} {x : Nat × Nat × String × String} {b : KeySig}
+    (h : keyOf R tm x = .ok b) : frameTime R tm x.1 = .ok b.time ∧ b.frame = x.1 ∧ b.key = x.2.1 := by
+  unfold keyOf at h
+  split at h
+  · rename_i t ht
+    simp only [Except.ok.injEq] at h; subst h; exact ⟨ht, rfl, rfl⟩
+  · simp at h
+
+namespace Ext
+@[simp] theorem fin_le_fin (a b : Int) : (fin a ≤ fin b) ↔ a ≤ b := Iff.rfl
+@[simp] theorem ninf_le (b : Ext) : ninf ≤ b := by cases b <;> trivial
+@[simp] theorem fin_le_ninf (a : Int) : ¬ (fin a ≤ ninf) := fun h => h
+@[simp] theorem fin_lt_fin (a b : Int) : (fin a < fin b) ↔ a < b := Iff.rfl
+@[simp] theorem ninf_lt_fin (b : Int) : ninf < fin b := trivial
+@[simp] theorem not_lt_ninf (a : Ext) : ¬ (a < ninf) := by cases a <;> exact fun h => h
+end Ext
+
+
+/-! ## `sorted(set(..))`, `bisect` -/
+section Sorted
+variable {α : Type} [DecidableEq α]
+
+structure StrictTotal (lt : α → α → Bool) : Prop where
+  irrefl : ∀ a, lt a a = false
+  trans : ∀ a b c, lt a b = true → lt b c = true → lt a c = true
+  tri : ∀ a b, lt a b = false → a ≠ b → lt b a = true
+
+variable {lt : α → α → Bool}
+
+theorem mem_insertSorted (x y : α) : ∀ l : List α, y ∈ insertSorted lt x l ↔ y = x ∨ y ∈ l
+  | [] => by simp [insertSorted]
+  | z :: l => by
+      simp only [insertSorted]
+      split
+      · simp
+      · split
+        · rename_i h; subst h; simp
+        · simp only [List.mem_cons, mem_insertSorted x y l]
+          constructor
+          · rintro (h | h | h)
+            · exact Or.inr (Or.inl h)
+            · exact Or.inl h
+            · exact Or.inr (Or.inr h)
+          · rintro (h | h | h)
+            · exact Or.inr (Or.inl h)
+            · exact Or.inl h
+            · exact Or.inr (Or.inr h)
+
+theorem mem_sortedSet (y : α) : ∀ l : List α, y ∈ sortedSet lt l ↔ y ∈ l
+  | [] => by simp [sortedSet]
+  | x :: l => by
+      have := mem_sortedSet y l
+      simp only [sortedSet, List.foldr_cons] at this ⊢
+      rw [mem_insertSorted, this]; simp
+
+theorem sorted_insertSorted (h : StrictTotal lt) (x : α) : ∀ l : List α,
+    l.Pairwise (fun a b => lt a b = true) → (insertSorted lt x l).Pairwise (fun a b => lt a b = true)
+  | [], _ => by simp [insertSorted]
+  | z :: l, hp => by
+      obtain ⟨h1, h2⟩ := List.pairwise_cons.mp hp
+      simp only [insertSorted]
+      split
+      · rename_i hxz
+        refine List.pairwise_cons.mpr ⟨?_, hp⟩
+        intro a ha
+        rcases List.mem_cons.mp ha with ha | ha
+        · subst ha; exact hxz
+        · exact h.trans _ _ _ hxz (h1 a ha)
+      · split
+        · exact hp
+        · rename_i hxz hne
+          have hzx : lt z x = true := h.tri x z (by simpa using hxz) hne
+          refine List.pairwise_cons.mpr ⟨?_, sorted_insertSorted h x l h2⟩
+          intro a ha
+          rcases (mem_insertSorted x a l).mp ha with ha | ha
+          · subst ha; exact hzx
+          · exact h1 a ha
+
+theorem sorted_sortedSet (h : StrictTotal lt) : ∀ l : List α,
+    (sortedSet lt l).Pairwise (fun a b => lt a b = true)
+  | [] => by simp [sortedSet]
+  | x :: l => by
+      have := sorted_sortedSet h l
+      simp only [sortedSet, List.foldr_cons] at this ⊢
+      exact sorted_insertSorted h x _ this
+
+omit [DecidableEq α] in
+/-- in a strictly sorted list the number of elements below a member is its index -/
+theorem index_of_sorted (h : StrictTotal lt) (x : α) : ∀ l : List α,
+    l.Pairwise (fun a b => lt a b = true) → x ∈ l → l[(l.takeWhile (fun t => lt t x)).length]? = some x
+  | [], _, hx => by simp at hx
+  | z :: l, hp, hx => by
+      obtain ⟨h1, h2⟩ := List.pairwise_cons.mp hp
+      rcases List.mem_cons.mp hx with hx | hx
+      · subst hx
+        simp [h.irrefl]
+      · have : lt z x = true := h1 x hx
+        simp only [List.takeWhile_cons, this, if_true, List.length_cons, List.getElem?_cons_succ]
+        exact index_of_sorted h x l h2 hx
+end Sorted
+
+theorem strictTotal_rat : StrictTotal (fun a b : Rat => decide (a < b)) where
+  irrefl := fun a => by simp [Rat.lt_irrefl]
+  trans := fun a b c hab hbc => by
+    simp only [decide_eq_true_eq] at *
+    rw [Rat.lt_iff_le_and_ne] at *
+    refine ⟨Rat.le_trans hab.1 hbc.1, fun e => ?_⟩
+    subst e
+    exact hab.2 (Rat.le_antisymm hab.1 hbc.1)
+  tri := fun a b hab hne => by
+    simp only [decide_eq_false_iff_not, decide_eq_true_eq] at *
+    rw [Rat.lt_iff_le_and_ne]
+    exact ⟨Rat.not_lt.mp hab, fun e => hne e.symm⟩
+
+theorem strictTotal_nat : StrictTotal (fun a b : Nat => decide (a < b)) where
+  irrefl := fun a => by simp
+  trans := fun a b c hab hbc => by simp only [decide_eq_true_eq] at *; omega
+  tri := fun a b hab hne => by simp only [decide_eq_false_iff_not, decide_eq_true_eq] at *; omega
+
+/-- `bisect_right` of a member of a strictly increasing list points just past it -/
+theorem bisectRight_mem (x : Rat) : ∀ ts : List Rat, ts.Pairwise (fun a b => decide (a < b) = true) → x ∈ ts →
+    ∃ k, bisectRight ts x = k + 1 ∧ ts[k]? = some x
+  | [], _, hx => by simp at hx
+  | t :: ts, hp, hx => by
+      obtain ⟨h1, h2⟩ := List.pairwise_cons.mp hp
+      unfold bisectRight
+      rcases List.mem_cons.mp hx with hx | hx
+      · subst hx
+        have : ts.takeWhile (fun t => decide (t ≤ x)) = [] := by
+          cases ts with
+          | nil => rfl
+          | cons u r =>
+            have hu : x < u := by simpa using h1 u (by simp)
+            simp [Rat.not_le.mpr hu]
+        exact ⟨0, by simp [this], by simp⟩
+      · have hlt : t < x := by simpa using h1 x hx
+        obtain ⟨k, hk, hk'⟩ := bisectRight_mem x ts h2 hx
+        unfold bisectRight at hk
+        exact ⟨k + 1, by simp [Rat.le_of_lt hlt, hk], by simpa using hk'⟩
+
+/-- below every element: index 0 -/
+theorem bisectRight_below (x : Rat) (ts : List Rat) (h : ∀ t ∈ ts, x < t) : bisectRight ts x = 0 := by
+  unfold bisectRight
+  cases ts with
+  | nil => rfl
+  | cons u r => simp [Rat.not_le.mpr (h u (by simp))]
+
+
+theorem foldl_max_ge : ∀ (rest : List Int) (a : Int), a ≤ rest.foldl max a ∧ ∀ x ∈ rest, x ≤ rest.foldl max a
+  | [], a => by simp
+  | y :: rest, a => by
+      obtain ⟨h1, h2⟩ := foldl_max_ge rest (max a y)
+      simp only [List.foldl_cons]
+      refine ⟨by omega, ?_⟩
+      intro x hx
+      rcases List.mem_cons.mp hx with hx | hx
+      · subst hx; omega
+      · exact h2 x hx
+
+
 end NSV.C19
